@@ -6,7 +6,7 @@ open SymbolVerif SymbolVerif.Sdk Driver
 
 def H := Hash.sha3_256
 
-def handle : String → Handler
+def handle : Handler
   | "mosaic_id", [addr, nonce] => do
     let a ← hexArg addr; let n ← natArg nonce
     pure (optOut toString (mosaicId H a n))
@@ -37,3 +37,5 @@ def handle : String → Handler
   | _, _ => none
 
 end Driver.C13
+
+def main : IO Unit := Driver.run Driver.C13.handle
